@@ -1,6 +1,12 @@
 """Per-property configuration of tools/check.py."""
 
 PROPS = {
+    "C09": {
+        "modules": ["BioSeq.Props.C09"],
+        "rule": "k-mer operation op lines: rotated_left/right (counts 0,1,2,3,7,65535,65536,65537,2^32-1,K,2K,random), pushl/pushr (every symbol for small alphabets), "
+                "rev (to_rev and in-place), and for DNA comp/revcomp/canonical form; exhaustive over all canonical k-mers when K*BITS <= 8 (quick) / 12 (thorough), boundary "
+                "patterns + random otherwise; every fitting K (sampled in quick) x usize/u64/u128 x 7 codecs; distinct = distinct line",
+    },
     "C02": {
         "modules": ["BioSeq.Props.C02"],
         "rule": "equality/hash op lines: 11 Seq/SeqSlice pairings x operands at independent bit offsets x {equal, one symbol changed (random/first/last), "
